@@ -83,6 +83,29 @@ def owned(desc):
     return out
 
 
+def sam_names(desc):
+    """(member of sam_idx_e, start, end) for every declared range of every subordinate instance: the member is named
+    after the instance's enumeration name, then the range's `desc` tag or -- with several ranges -- its position"""
+    eps = {e["name"]: e for e in desc["endpoints"]}
+    out = []
+    for inst in instances(desc):
+        ep = eps[inst["ep"]]
+        if ep.get("sbr_port_protocol") is None:
+            continue
+        rs = ranges_of(ep)
+        for j, rng in enumerate(rs):
+            b = bounds(rng, inst["k"] if shape(ep) is not None else None)
+            if b is None:
+                continue
+            nm = inst["enum"]
+            if rng.get("desc") is not None:
+                nm += "_" + str(rng["desc"])
+            elif len(rs) > 1:
+                nm += "_" + str(j)
+            out.append((camel(nm + "_sam_idx"), b[0], b[1]))
+    return out
+
+
 def is_mgr(ep):
     return ep.get("mgr_port_protocol") is not None
 
